@@ -7,11 +7,11 @@ from pytoniq_core.boc import Cell
 PROP = 'C01'
 TRACE_MODULE = 'C01Trace.tla'
 RULE = ('G: every heap of the CellDag machine within the cfg constants (TLC-enumerated, each replayed through the routes '
-        'builder/ctor/boc/copy/slice/tobuilder); random: every data length 0..1023 at least once, random shared DAGs, a '
+        'builder/ctor/boc/copy/slice/tobuilder/reuse = builder used again after end_cell); random: every data length 0..1023 at least once, random shared DAGs, a '
         'depth-1023 chain; distinct = distinct (route, cell content, child hashes) observations counted by reported hash+route')
 ASSUMPTIONS = ['TonSha.Sha256 anchored on FIPS vectors (ShaVectorsOk)', 'TonCell transcription of TVM 3.1.4-3.1.5',
                'record content (bits/refs/type) is read from the live objects through the public attributes']
-ROUTES = ['builder', 'ctor', 'boc', 'copy', 'slice', 'tobuilder']
+ROUTES = ['builder', 'ctor', 'boc', 'copy', 'slice', 'tobuilder', 'reuse']
 
 
 def dag_cfg(maxcells, bitlens, maxrefs, exotics='{}', maxlvl=1, symbolic='FALSE', emit='TRUE', invs=True):
@@ -47,7 +47,7 @@ def model_checks(tier):
 def via_route(heap, route, rng):
     """-> record dict (without i)"""
     rec = {'op': 'cells', 'route': route, 'pairs': [], 'twins': []}
-    base = 'ctor' if route == 'ctor' else 'builder'
+    base = route if route in ('ctor', 'reuse') else 'builder'
     try:
         objs = ck.build_heap(heap, base)
         if route == 'boc':
